@@ -17,6 +17,7 @@ struct St {
     sess_deleted: BTreeMap<u32, BTreeSet<String>>,
     updated_tables: BTreeSet<String>,
     poisoned: BTreeSet<(String, String)>,
+    vacuumed: bool,
 }
 
 fn key_str(vals: &[Val], cols: &[usize]) -> String {
@@ -157,6 +158,9 @@ impl St {
             }
             _ => {}
         }
+        if s.is_ddl() && !matches!(exp, Expect::Fail(_)) && has("ddl_after_vacuum") && self.vacuumed {
+            return Some("ddl_after_vacuum".into());
+        }
         if s.is_ddl() && !matches!(exp, Expect::Fail(_)) {
             if has("ddl_concurrent_with_open_session") && others_active {
                 return Some("ddl_concurrent_with_open_session".into());
@@ -209,6 +213,7 @@ pub fn first_violation(events: &[Event], guards: &[String]) -> Option<(usize, St
         sess_deleted: BTreeMap::new(),
         updated_tables: BTreeSet::new(),
         poisoned: BTreeSet::new(),
+        vacuumed: false,
     };
     for (i, ev) in events.iter().enumerate() {
         match ev {
@@ -312,11 +317,23 @@ pub fn first_violation(events: &[Event], guards: &[String]) -> Option<(usize, St
                 st.end_session(*k, true);
             }
             Event::Vacuum | Event::Reopen(_) => {
+                if matches!(ev, Event::Vacuum) && has("vacuum_with_more_than_one_table") && st.relations > 1 {
+                    return Some((i, "vacuum_with_more_than_one_table".into()));
+                }
+                if matches!(ev, Event::Vacuum) && has("vacuum_of_updated_rows") && !st.updated_tables.is_empty() {
+                    return Some((i, "vacuum_of_updated_rows".into()));
+                }
+                if matches!(ev, Event::Vacuum) && has("vacuum_after_rolled_back_delete") && (!st.delete_rolled_back.is_empty() || !st.sess_deleted.is_empty()) {
+                    return Some((i, "vacuum_after_rolled_back_delete".into()));
+                }
                 let ks: Vec<u32> = st.sess.keys().copied().collect();
                 for k in ks {
                     let tx = st.sess.remove(&k).unwrap();
                     st.model.abort(tx);
                     st.end_session(k, true);
+                }
+                if matches!(ev, Event::Vacuum) {
+                    st.vacuumed = true;
                 }
             }
             Event::Flush => {
